@@ -23,7 +23,7 @@ NEEDS_SIMMPI = True
 RULE = ("seeded set-ups: grids [nr 6-9, ntheta 4-9 even and odd, nz 7-8, nv 6-9], process grids (1,1),(2,1),(1,2),(2,2),"
         "(3,1),(1,3),(3,2),(2,3), chi in {0,1}, adiabatic or kinetic electrons, distributions = equilibrium*(1+eps*mode) with "
         "poloidal mode numbers also above ntheta/2 (aliasing bookkeeping) from pygyro's own initialiser, or equilibrium + "
-        "random perturbation; stages rho / modes / phi_hat / phi assembled over ranks and compared with the independent "
+        "random perturbation (relative size 0.2, and 1e-9), or one strong poloidal mode with side bands nine orders of magnitude weaker; stages rho / modes / phi_hat / phi assembled over ranks and compared with the independent "
         "pipeline; FFT round trip on random complex grids; equilibrium (eps=0): rho, phi exactly zero and one full Strang "
         "step is a fixed point.  A class is (ntheta parity, chi/electron model, which of r|z split, data kind, stage).")
 ASSUMPTIONS = ["simulated MPI through all layout changes of the pipeline (self-tested)", "reference per-mode solve = dense Galerkin assembly of C14 with the QN coefficient functions",
@@ -41,7 +41,7 @@ def gen_cases(tier, seed):
     for k in range(n):
         nth = rng.choice([4, 5, 6, 7, 8, 9])
         model = ["chi0", "chi1", "kinetic"][k % 3]
-        data = ["init", "init-aliased", "random"][(k // 3) % 3]
+        data = ["init", "init-aliased", "random", "random-tiny", "sidebands"][(k // 3) % 5]
         cases.append({"kind": "pipeline", "npts": [rng.randint(6, 9), nth, rng.randint(7, 8), rng.randint(6, 9)], "nprocs": list(grids[k % len(grids)]),
                       "model": model, "data": data, "seed": rng.randrange(1 << 30), "cost": 200})
     for k in range(4 if tier == "quick" else 40):
@@ -77,6 +77,13 @@ def _pipeline(case, spl, ps):
     FEQ4 = pg.f_eq(R, V, c)
     if data == "random":
         F = FEQ4 * (1 + 0.2 * rs.standard_normal(npts))
+    elif data == "random-tiny":
+        # the density-to-potential map is linear: a perturbation of size 1e-9 must not be treated as "nothing"
+        F = FEQ4 * (1 + 1e-9 * rs.standard_normal(npts))
+    elif data == "sidebands":
+        # one strong poloidal mode with weak neighbours nine orders of magnitude below it
+        m1, m2 = (mmode + 1) % nth, (mmode + 2) % nth
+        F = FEQ4 * (1 + 0.1 * np.cos(mmode * TH) + 1e-9 * np.exp(-(R - c.rp) ** 2 / c.deltaR) * (np.cos(m1 * TH + Z / c.R0) + np.sin(m2 * TH)))
     else:
         F = FEQ4 * (1 + c.eps * np.exp(-(R - c.rp) ** 2 / c.deltaR) * np.cos(c.m * TH + c.n * Z / c.R0))
     RT = rs.standard_normal((nr, nth, nz)) + 1j * rs.standard_normal((nr, nth, nz))
@@ -86,7 +93,7 @@ def _pipeline(case, spl, ps):
     def prog(rank):
         comm = MPI.COMM_WORLD
         sim = simrun.Sim(comm, c, nprocs, layout='v_parallel', save=True)
-        if data == "random":
+        if data in ("random", "random-tiny", "sidebands"):
             sim.scatter(sim.f, F)
         else:
             initialise_v_parallel(sim.f, c)
@@ -120,7 +127,7 @@ def _pipeline(case, spl, ps):
     ev.update({"stage_points_compared": 0, "roundtrip_points": 0, "odd_ntheta_runs": nth % 2, "aliased_mode_runs": int(data == "init-aliased"),
                "chi1_runs": int(model == "chi1"), "kinetic_runs": int(model == "kinetic"), "equilibrium_runs": 0})
     cls = set()
-    if data != "random":
+    if data in ("init", "init-aliased"):
         # the initial distribution itself (pygyro's initialiser) vs. the documented formula
         if not np.all(np.abs(F0 - F) <= 100 * rm.EPS * np.abs(F).max()):
             return result(VIOL, cls=[base], events=ev, key="C15:initial-distribution", what="initialised f differs from f_eq*(1+eps*perturbation) by %.3g" % float(np.abs(F0 - F).max()), witness=wit)
